@@ -26,9 +26,9 @@ func MaccPerms(c *Ctx) (map[string][]string, string, error) {
 	if pk == nil {
 		return nil, "", fmt.Errorf("package app not loaded")
 	}
-	init := c.W.VarInit(pk, "maccPerms")
+	init := c.W.VarInit(pk, maccPermsVar(c))
 	if init == nil {
-		return nil, "", fmt.Errorf("app.maccPerms initialiser not found")
+		return nil, "", fmt.Errorf("app.%s initialiser not found", maccPermsVar(c))
 	}
 	m, err := ir.EvalStringSetMap(pk, init)
 	return m, c.W.Pos(init.Pos()), err
@@ -339,4 +339,45 @@ func bankKeyFlow(c *Ctx) {
 		}
 	}
 	r.Analysed["ctx.KVStore_call_sites"] = n
+}
+
+// maccPermsVar: the package-level variable of package app that holds the module account permissions — found by its
+// use (the permissions argument of authkeeper.NewAccountKeeper), whatever it is called.
+func maccPermsVar(c *Ctx) string {
+	if c.maccVar != "" {
+		return c.maccVar
+	}
+	c.maccVar = "maccPerms"
+	for _, f := range c.W.Funcs {
+		if pk := ir.FnPkg(f); pk == nil || ir.RelPkg(pk.Path()) != "app" {
+			continue
+		}
+		for _, b := range f.Blocks {
+			for _, in := range b.Instrs {
+				call, ok := in.(ssa.CallInstruction)
+				if !ok {
+					continue
+				}
+				sc := call.Common().StaticCallee()
+				if sc == nil || sc.Name() != "NewAccountKeeper" || ir.FnPkg(sc) == nil || !strings.HasSuffix(ir.FnPkg(sc).Path(), "x/auth/keeper") {
+					continue
+				}
+				for _, a := range call.Common().Args {
+					mt, isMap := a.Type().Underlying().(*types.Map)
+					if !isMap {
+						continue
+					}
+					if _, ok := mt.Elem().Underlying().(*types.Slice); !ok {
+						continue
+					}
+					if u, ok := a.(*ssa.UnOp); ok {
+						if g, ok := u.X.(*ssa.Global); ok {
+							c.maccVar = g.Name()
+						}
+					}
+				}
+			}
+		}
+	}
+	return c.maccVar
 }
